@@ -81,6 +81,7 @@ func c19(p *P) {
 	r.Rule("C19.R1", "sim oracle: decision accepted only past all checks; quorum threshold derived from the instance's power table", 12)
 	r.Rule("C19.R2", "sim: invalid decisions recorded, surfaced and checked; consensus compares every non-excluded participant", 7)
 	r.Rule("C19.R3", "certchain committee look-back = node committee look-back (linear forms)", 5)
+	p.include(c08, map[string]string{"C08.R1": "C19.R4", "C08.R4": "C19.R4b"}, map[string]string{"C19.R4": "the oracle's strong-quorum predicate is exact", "C19.R4b": "the oracle's signer weights are scaled exactly"})
 
 	// ---------------- R1
 	if fn := p.fn("C19.R1", "sim.ECInstance.validateDecision"); fn != nil {
